@@ -11,6 +11,7 @@ import ast
 import numpy as _np
 
 from ..core import Undecided, AnalysisError
+from ..forks import Fork
 from ..ratfun import Rat
 from ..symex import (Inst, Func, Builtin, Rec, PyRaise, is_scalar, to_rat)
 from ..namodel import NA, DT, objarr
@@ -199,6 +200,94 @@ def builders(model):
         B['FlatteningOperator.inverse[%s]' % tag] = (
             lambda I, S, k=k: I.getattr_value(inst(
                 I, 'FlatteningOperator', sp((2, 3), **k)), 'inverse'))
+    # point-wise inner products on vector-field spaces X^3 (base space X
+    # weighted by w; product-space weights none / constant / per component;
+    # optional explicit operator weights q)
+    def vf(cx, wt):
+        X = NSpace((2,), 'complex128' if cx else 'float64', Rat.var('w'))
+        w = {None: None, 'const': [Rat.var('p0')] * 3,
+             'array': [Rat.var('p%d' % i) for i in range(3)]}[wt]
+        return X, NPSpace([X, X, X], w)
+    qw = lambda: NA(objarr([Rat.var('q%d' % i) for i in range(3)]),
+                    'float64')
+    for cx in (False, True):
+        for wt in (None, 'const', 'array'):
+            t = '%s,pspace weights %s' % ('C' if cx else 'R', wt)
+            B['PointwiseInner[%s]' % t] = lambda I, S, cx=cx, wt=wt: inst(
+                I, 'PointwiseInner', vf(cx, wt)[1],
+                sym_elem(vf(cx, wt)[1], 'g'))
+            B['PointwiseInner[%s,weighting=q]' % t] = (
+                lambda I, S, cx=cx, wt=wt: inst(
+                    I, 'PointwiseInner', vf(cx, wt)[1],
+                    sym_elem(vf(cx, wt)[1], 'g'), weighting=qw()))
+            B['PointwiseInnerAdjoint[%s]' % t] = (
+                lambda I, S, cx=cx, wt=wt: inst(
+                    I, 'PointwiseInnerAdjoint', vf(cx, wt)[0],
+                    sym_elem(vf(cx, wt)[1], 'g'), vfspace=vf(cx, wt)[1]))
+            B['PointwiseInnerAdjoint[%s,weighting=q]' % t] = (
+                lambda I, S, cx=cx, wt=wt: inst(
+                    I, 'PointwiseInnerAdjoint', vf(cx, wt)[0],
+                    sym_elem(vf(cx, wt)[1], 'g'), vfspace=vf(cx, wt)[1],
+                    weighting=qw()))
+            B['PointwiseSum[%s]' % t] = lambda I, S, cx=cx, wt=wt: inst(
+                I, 'PointwiseSum', vf(cx, wt)[1])
+        B['PointwiseInnerAdjoint[%s,default vfspace,weighting=q]' % (
+            'C' if cx else 'R')] = lambda I, S, cx=cx: inst(
+                I, 'PointwiseInnerAdjoint', vf(cx, None)[0],
+                sym_elem(vf(cx, None)[1], 'g'), weighting=qw())
+    # finite differences on a uniformly discretized 4 x 3 model space with
+    # symbolic cell sides h0, h1: default weighting (cell volume), another
+    # constant, per-cell weights (what `nodes_on_bdry=True` gives)
+    def D(w='vol', cx=False, shape=(4, 3)):
+        hs = [Rat.var('h%d' % i) for i in range(len(shape))]
+        vol = hs[0] * hs[1]
+        if w == 'vol':
+            wt = vol
+        elif w == 'const':
+            wt = Rat.var('w')
+        else:
+            a = _np.empty(shape, dtype=object)
+            for idx in _np.ndindex(*shape):
+                a[idx] = vol * Rat.var('w' + ''.join(map(str, idx)))
+            wt = NA(a, 'float64')
+        return NSpace(shape, 'complex128' if cx else 'float64', wt,
+                      cell_sides=hs)
+    PADS = ('constant', 'periodic', 'symmetric', 'symmetric_adjoint',
+            'order0', 'order0_adjoint', 'order1', 'order1_adjoint', 'order2',
+            'order2_adjoint')
+    for m in ('forward', 'backward', 'central'):
+        for pm in PADS:
+            for ax in (0, 1):
+                B['PartialDerivative[%s,%s,axis=%d]' % (m, pm, ax)] = (
+                    lambda I, S, m=m, pm=pm, ax=ax: inst(
+                        I, 'PartialDerivative', D(), ax, method=m,
+                        pad_mode=pm))
+        for pm in ('constant', 'periodic', 'symmetric', 'order0', 'order1',
+                   'order2'):
+            B['Gradient[%s,%s]' % (m, pm)] = lambda I, S, m=m, pm=pm: inst(
+                I, 'Gradient', D(), method=m, pad_mode=pm)
+            B['Divergence[%s,%s]' % (m, pm)] = lambda I, S, m=m, pm=pm: inst(
+                I, 'Divergence', range=D(), method=m, pad_mode=pm)
+    for pm in ('constant', 'periodic', 'symmetric', 'order0'):
+        B['Laplacian[%s]' % pm] = lambda I, S, pm=pm: inst(
+            I, 'Laplacian', D(), pad_mode=pm)
+    for w, cx, t in (('vol', True, 'complex'),
+                     ('const', False, 'constant weight w'),
+                     ('const', True, 'constant weight w, complex'),
+                     ('array', False, 'per-cell weights')):
+        B['PartialDerivative[%s]' % t] = lambda I, S, w=w, cx=cx: inst(
+            I, 'PartialDerivative', D(w, cx), 1)
+        B['Gradient[%s]' % t] = lambda I, S, w=w, cx=cx: inst(
+            I, 'Gradient', D(w, cx))
+        B['Divergence[%s]' % t] = lambda I, S, w=w, cx=cx: inst(
+            I, 'Divergence', range=D(w, cx))
+        B['Laplacian[%s]' % t] = lambda I, S, w=w, cx=cx: inst(
+            I, 'Laplacian', D(w, cx))
+    wps = lambda X: NPSpace([X, X], [Rat.var('p0'), Rat.var('p1')])
+    B['Gradient[weighted product-space range]'] = lambda I, S: inst(
+        I, 'Gradient', D(), range=wps(D()))
+    B['Divergence[weighted product-space domain]'] = lambda I, S: inst(
+        I, 'Divergence', domain=wps(D()), range=D())
     # arithmetic on top of concrete leaves (dunders of Operator)
     B['expr:(s*RealPart + ImagPart)[C]'] = (
         lambda I, S: I.binop(ast.Add, I.binop(ast.Mult, Rat.var('s'), inst(
@@ -213,12 +302,21 @@ def builders(model):
 class H5(SMHooks):
     def __init__(self):
         SMHooks.__init__(self)
-        self.signs = Signs({'w', 'w0', 'w1', 'p0', 'p1', 'p2'})
+        self.signs = Signs({'w', 'w0', 'w1', 'p0', 'p1', 'p2', 'q0', 'q1',
+                            'q2', 'h0', 'h1', 'h2'} | {
+                'w%d%d' % (i, j) for i in range(4) for j in range(3)})
 
     def on_decide(self, interp, cond, node):
         # symbolic parameters are generic (non-zero, not special values)
         if cond.rat is not None and cond.key.startswith('eq0:'):
             return False
+        k = cond.key.split(':')[0]
+        if cond.rat is not None and k in ('Lt', 'LtE', 'Gt', 'GtE'):
+            # sign of a sum of products of positive symbols
+            sg = PA.rat_sign(cond.rat, self.signs)
+            if sg is not None:
+                return {'Lt': sg < 0, 'LtE': sg <= 0, 'Gt': sg > 0,
+                        'GtE': sg >= 0}[k]
         return SMHooks.on_decide(self, interp, cond, node)
 
 
@@ -261,7 +359,22 @@ def evaluate(model, build):
         lhs, rhs = PA.real_part(lhs), PA.real_part(rhs)
         res['real_identity'] = True
     res['lhs'], res['rhs'] = lhs, rhs
-    # in-place evaluation of the adjoint agrees with out-of-place
+    # involution: A.adjoint.adjoint acts like A
+    try:
+        adj2 = I.getattr_value(adj, 'adjoint')
+        A2x = conv(ran, I.call(adj2, [sym_in(dom, 'x')], {}))
+    except PyRaise as e:
+        res['invol'] = 'adjoint.adjoint raises %s' % e.name
+    else:
+        def ent(space, v):
+            return [PA.ired(to_rat(v))] if isinstance(space, NField) \
+                else flat(v)
+        a, b = ent(ran, Ax), ent(ran, A2x)
+        bad = [k for k, (p, q) in enumerate(zip(a, b))
+               if not PA.equal_exact(p, q, WIT)]
+        if len(a) != len(b) or bad:
+            res['invol'] = ('adjoint.adjoint(x) differs from A(x) in %d of '
+                            '%d entries' % (len(bad), len(a)))
     res['outcome'] = 'value'
     return res
 
@@ -281,7 +394,7 @@ def run(rep, model):
         DOPS, line0 = _where(model, name)
         try:
             r = evaluate(model, b)
-        except Undecided as e:
+        except (Undecided, Fork) as e:
             rep.undecided('R8', cons, str(e), DOPS)
             continue
         except PyRaise as e:
@@ -303,13 +416,18 @@ def run(rep, model):
             probs.append('adjoint.range is %r, the domain is %r'
                          % (r['adj_ran'], r['dom']))
         if not PA.equal_exact(r['lhs'], r['rhs'], WIT):
-            probs.append('%s<A x, y> = %r but <x, A* y> = %r' % (
-                'Re ' if r.get('real_identity') else '', r['lhs'],
-                r['rhs']))
+            short = lambda v: (lambda t: t if len(t) <= 240 else t[:240] +
+                               ' ...')(repr(v))
+            probs.append('%s<A x, y> = %s but <x, A* y> = %s' % (
+                'Re ' if r.get('real_identity') else '', short(r['lhs']),
+                short(r['rhs'])))
+        if r.get('invol'):
+            probs.append(r['invol'])
         if probs:
             rep.violation('R8', cons, '; '.join(probs), DOPS, line0)
         else:
-            rep.holds('R8', cons, 'adjoint identity holds identically%s'
+            rep.holds('R8', cons, 'adjoint identity holds identically, '
+                      'adjoint.adjoint acts like A%s'
                       % (' (real parts)' if r.get('real_identity')
                          else ''))
-    rep.floor('R8', 'evaluated operator instances', n, 90)
+    rep.floor('R8', 'evaluated operator instances', n, 230)
